@@ -31,6 +31,7 @@ type Pipe struct {
 	writes      [][]byte
 	writeTimes  []time.Time
 	gateClosed  bool
+	allow       int // writes that may pass the closed gate (AllowWrites)
 	parked      int // writers parked on the gate
 	failAt      map[int]error
 	writeCalls  int
@@ -163,11 +164,14 @@ func (p *Pipe) Write(b []byte) (int, error) {
 	defer func() { p.active-- }()
 	p.writeCalls++
 	call := p.writeCalls
-	for p.gateClosed && !p.closed {
+	for p.gateClosed && p.allow == 0 && !p.closed {
 		p.parked++
 		p.cond.Broadcast()
 		p.cond.Wait()
 		p.parked--
+	}
+	if p.gateClosed && p.allow > 0 {
+		p.allow--
 	}
 	if p.closed {
 		return 0, ErrClosed
@@ -235,6 +239,14 @@ func (p *Pipe) BlockWrites() {
 	p.mu.Lock()
 	p.gateClosed = true
 	p.mu.Unlock()
+}
+
+// AllowWrites lets exactly k more Write calls pass the closed gate (a link that recovers for a moment).
+func (p *Pipe) AllowWrites(k int) {
+	p.mu.Lock()
+	p.allow += k
+	p.mu.Unlock()
+	p.cond.Broadcast()
 }
 
 // UnblockWrites opens the gate.
